@@ -7,6 +7,22 @@ HOOK_COMMITS = []
 
 # id -> (technique, level text, level note, design ref)
 CLAIMED = {
+ "C01": ("runtime monitor: two real endpoints over a seeded faulty link, offset-keyed stream content compared at every recv (history + executable model)",
+         "Exploration by runtime monitoring: 15 000 (quick) / 600 000 (thorough) seeded executions of two real smoltcp interfaces (IPv4/IPv6, IP and Ethernet media, MTU 68..1500, buffers 1 B..256 KiB with window scaling, none/Reno/CUBIC, Nagle, delayed ACK, timestamps) joined by a link that drops, duplicates, delays, reorders and corrupts one byte per seeded fate schedule; every byte handed to either application is compared with the peer's byte at that stream offset and Finished is only accepted once the peer closed and everything was handed over. Evidence reports bytes compared, retransmissions, reorderings, corruptions and sequence wraps actually observed.",
+         "Trusted: the simulator and stream oracle (harness/src/sim/tcpsim.rs), the independent TCP/IP parser used for statistics. Corruption is single-byte (always detected). Executions not generated are not judged; ISN wrap coverage is whatever the seeded ISNs produce (counted in evidence).",
+         "DESIGN.md §4 C01"),
+ "C02": ("runtime monitor: poll_at-driven two-endpoint simulation with a per-step safety invariant (finite deadline while SYN/FIN/data unacknowledged), a quiescence check and a bounded-progress check in virtual time",
+         "Exploration by runtime monitoring: the same simulation polled only on frame arrival and at the instant poll_at last returned. (I) after every poll a socket with an unacknowledged SYN/FIN or queued data must report a finite deadline; (Q) an execution with nothing in flight, no deadline and no enabled application action must be complete; (B) once the network is reliable, some observable progress at least every 900 virtual seconds until all bytes are delivered and both sockets are CLOSED/TIME-WAIT. Liveness is restated as bounded progress; slower livelocks are out of reach.",
+         "Trusted: the scheduler discipline in harness/src/sim/tcpsim.rs (never polls later than promised, never earlier except for the explicit early polls), the 900 s bound (RTO and persist back-off are capped at 60 s).",
+         "DESIGN.md §4 C02"),
+ "C05": ("runtime monitor: per-segment sender oracle fed only by frames delivered to the socket and by the application's writes (window edge, MSS/MTU, content, ordering, FIN placement, window-field scaling)",
+         "Exploration by runtime monitoring: every segment emitted by both sockets of the two-endpoint simulation (15 000 quick / 600 000 thorough executions) is judged by an independent monitor: data within the highest right edge ever delivered (one-byte probes excepted), payload+options within announced MSS (clamped at 48, 536 if absent) and MTU, payload equal to the application's bytes also when retransmitted, no gap in new data, FIN exactly at the end of the written stream, SYN window unscaled, later windows within the buffer under the negotiated shift.",
+         "Trusted: harness/src/mon/tcp_sender.rs and the independent TCP parser. 'Learned window' is read as the maximum right edge ever delivered (weakest sound reading). Peers with arbitrary MSS / window-scale announcements are driven by the scripted-peer part when present (see evidence parts).",
+         "DESIGN.md §4 C05"),
+ "C13": ("runtime monitor: early probe polls strictly before the promised deadline must transmit nothing (S); polls without rx/tx must leave a strictly later deadline (N); attached to the simulation drivers",
+         "Exploration by runtime monitoring: after regular polls of the two-endpoint TCP simulation (all TCP timer kinds: retransmit, delayed ACK, persist, TIME-WAIT, window update) an extra poll at a random instant strictly inside (now, deadline) - with no frame and no socket call in between - must transmit nothing, and a poll that neither received nor transmitted must not leave a deadline <= now; more than 40 000 frames in one poll is reported as a poll that does not return. IGMP/MLD reports are ignored as the statement says.",
+         "Trusted: the probe placement logic in harness/src/sim/tcpsim.rs (horizon = next scheduled event). Only the drivers listed in the evidence file are covered; pending-work classes not driven are not judged.",
+         "DESIGN.md §4 C13"),
  "C14": ("runtime monitor: executable queue model compared with the real RingBuffer/PacketBuffer after every operation; reachable-state closure + random programs",
          "Exploration by runtime monitoring: every operation with every argument is applied from every reachable (read pointer, length, staged-set) state of small buffers (closure, capacities 0..5 quick / 0..9 thorough) and in 40 000 (quick) / 4 000 000 (thorough) random programs on capacities up to 4096; each step's return value, slice length/content and every observer is compared with a VecDeque model using unique element ids. Held on what was executed, not a proof.",
          "Trusted: the model (harness/src/mon/c14.rs), rustc, that staged elements survive dequeues/enqueue_unallocated and are invalidated by queue-interface enqueues/clear. Refusals of a non-empty PacketBuffer are not judged.",
